@@ -127,7 +127,7 @@ func c02r2(c *an.Ctx) {
 
 	isPktStream := func(v ssa.Value) bool {
 		p := an.PathOf(v)
-		return len(p.Fields) >= 2 && p.Fields[len(p.Fields)-1].Origin() == idStream.Origin() && p.Fields[len(p.Fields)-2].Name() == "ID"
+		return len(p.Fields) >= 2 && p.Fields[len(p.Fields)-1].Origin() == idStream.Origin() && nameOf(p.Fields[len(p.Fields)-2]) == "ID"
 	}
 	idOf := func(v ssa.Value) ssa.Value { // curr in `curr.ID()`
 		call, ok := v.(*ssa.Call)
@@ -761,7 +761,7 @@ func isTermErr(c *an.Ctx, e ssa.Value) bool {
 		return false
 	}
 	f := recvField(call.Common())
-	return f != nil && f.Name() == "term"
+	return f != nil && nameOf(f) == "term"
 }
 
 func c02r7(c *an.Ctx) {
